@@ -116,14 +116,25 @@ while i < len(lines):
         # alone and with a 10x limit, before it is believed
         if tag == 'P' and k < len(out) and 'HANG' in out[k][:40]:
             one = sys.argv[1] + '.%%d.retry' %% (i + k)
-            open(one, 'w').write(lines[i + k] + '\n')
+            open(one, 'w').write(lines[i + k] + '\\n')
             env2 = dict(os.environ); env2['E2_TIMEOUT_MS'] = '200000'
             for attempt in range(2):
                 q = subprocess.run([exe, one], stdout=subprocess.PIPE, stderr=subprocess.PIPE, universal_newlines=True, errors='replace', env=env2)
-                o2 = q.stdout.strip().split('\n')[0] if q.stdout.strip() else out[k]
+                o2 = q.stdout.strip().split('\\n')[0] if q.stdout.strip() else out[k]
                 if 'HANG' not in o2[:40]:
                     out[k] = o2; break
-        if k < len(out): print(out[k])
+        # the E3 controller has a 20 s real-time watchdog per step: if the harness died, the remaining schedules are
+        # run again one by one (twice at most) before a CRASH is reported
+        if tag == 'A' and k >= len(out):
+            one = sys.argv[1] + '.%%d.retry' %% (i + k)
+            open(one, 'w').write(lines[i + k] + '\\n')
+            o2 = ''
+            for attempt in range(2):
+                q = subprocess.run([exe, one], stdout=subprocess.PIPE, stderr=subprocess.PIPE, universal_newlines=True, errors='replace')
+                o2 = q.stdout.strip().split('\\n')[0] if q.stdout.strip() else ''
+                if o2: break
+            print(o2 if o2 else 'CRASH(%%s): %%s' %% (q.returncode, (q.stderr.strip().splitlines() or [''])[-1][:200]))
+        elif k < len(out): print(out[k])
         elif k == len(out): print('CRASH(%%s): %%s' %% (p.returncode, (p.stderr.strip().splitlines() or [''])[-1][:200]))
         else: print('CRASH(skipped)')
     sys.stdout.flush()
